@@ -19,6 +19,16 @@
    (integer ms) advances only in USelect*, to the earlier pending end instant.  `select!` is
    `biased` in the code (v4 wins a tie); the property does not order a tie, the spec allows both.
 
+   The scenario's `api` selects the entry point.  "all" is resolve_host_all (above).  The two
+   join-based entry points share the lookups and the timeout rule:
+     "one4" / "one6"   resolve_host(url, prefer_ipv6 = FALSE / TRUE, timeout): `tokio::join!` of both
+                lookups; ResolveBoth iff both failed; otherwise the first address of the preferred
+                family, else the first of the other family, else NoResponse
+     "join"     lookup_ipv4_ipv6(host, timeout): join of both; ResolveBoth iff both failed, otherwise
+                all IPv4 addresses followed by all IPv6 addresses (the iterator may be empty)
+   Join (both lookups have ended: the later end instant) and Answer model them; their result is
+   written to `out` in the same item format (all items at the instant of the return).
+
    `out` is the observable behaviour: the items with the instant at which they were yielded,
    closed by an "end" marker.  It is what the harness records from the real stream
    (harness/src/bin/vh_dns.rs c35) and it must be one of the behaviours TLC generates for the
@@ -26,7 +36,7 @@
 EXTENDS Naturals, Sequences, FiniteSets, TLC, Json
 
 CONSTANTS Timeout,      \* the `timeout` argument (ms)
-          Scenarios     \* [host, e4, e6]: host kind and the scripted answer of each family
+          Scenarios     \* [api, host, e4, e6]: entry point, host kind and the scripted answer of each family
 
 VARIABLES scn, phase, now, f4, f6, err4, err6, queue, yielded, closed, out
 vars == <<scn, phase, now, f4, f6, err4, err6, queue, yielded, closed, out>>
@@ -49,7 +59,7 @@ Init == /\ scn \in Scenarios /\ phase = "new" /\ now = 0
 \* resolve_host_all(url, timeout): match url.host()
 Create == /\ phase = "new"
           /\ IF scn.host = "domain"
-                THEN phase' = "unfold" /\ f4' = "pending" /\ f6' = "pending"
+                THEN phase' = (IF scn.api = "all" THEN "unfold" ELSE "join") /\ f4' = "pending" /\ f6' = "pending"
                 ELSE phase' = "once" /\ UNCHANGED <<f4, f6>>
           /\ UNCHANGED <<scn, now, err4, err6, queue, yielded, closed, out>>
 
@@ -93,7 +103,29 @@ USelect6 == /\ phase = "unfold" /\ ~closed /\ queue = <<>> /\ f6 = "pending"
                                        ELSE err6' = OutOf(scn.e6) /\ UNCHANGED queue
             /\ UNCHANGED <<scn, phase, f4, err4, yielded, closed, out>>
 
-Next == Create \/ Once \/ OnceEnd \/ UClosed \/ UPop \/ UFinish \/ USelect4 \/ USelect6
+\* tokio::join!(lookup_ipv4, lookup_ipv6): both lookups have ended
+Join == /\ phase = "join"
+        /\ now' = Max(EndOf(scn.e4), EndOf(scn.e6)) /\ f4' = "none" /\ f6' = "none"
+        /\ err4' = (IF OutOf(scn.e4) = "ok" THEN "-" ELSE OutOf(scn.e4))
+        /\ err6' = (IF OutOf(scn.e6) = "ok" THEN "-" ELSE OutOf(scn.e6))
+        /\ phase' = "joined"
+        /\ UNCHANGED <<scn, queue, yielded, closed, out>>
+
+First(s) == IF s = <<>> THEN <<>> ELSE <<s[1]>>
+\* the match on the two results
+Answer ==
+  /\ phase = "joined" /\ phase' = "ended"
+  /\ LET a4 == Addrs("a", scn.e4)  a6 == Addrs("aaaa", scn.e6)
+         picked == CASE scn.api = "join" -> a4 \o a6
+                     [] scn.api = "one4" -> First(First(a4) \o First(a6))
+                     [] scn.api = "one6" -> First(First(a6) \o First(a4))
+         items == IF err4 # "-" /\ err6 # "-" THEN <<Item("both", "-", 0, err4, err6)>>
+                  ELSE IF picked = <<>> /\ scn.api # "join" THEN <<Item("no_response", "-", 0, "-", "-")>>
+                  ELSE [k \in 1..Len(picked) |-> Item("ok", picked[k].fam, picked[k].j, "-", "-")]
+     IN out' = out \o items \o <<Item("end", "-", 0, "-", "-")>>
+  /\ UNCHANGED <<scn, now, f4, f6, err4, err6, queue, yielded, closed>>
+
+Next == Create \/ Once \/ OnceEnd \/ UClosed \/ UPop \/ UFinish \/ USelect4 \/ USelect6 \/ Join \/ Answer
 Spec == Init /\ [][Next]_vars
 
 ----------------------------------------------------------------------------
@@ -107,12 +139,12 @@ BothFail == OutOf(scn.e4) # "ok" /\ OutOf(scn.e6) # "ok"
 
 \* every address of both lookups is yielded, each family's block contiguous, blocks in completion order
 AllAddresses ==
-  Ended /\ scn.host = "domain" =>
+  Ended /\ scn.host = "domain" /\ scn.api = "all" =>
      \/ EndOf(scn.e4) <= EndOf(scn.e6) /\ Proj(Oks) = A4 \o A6
      \/ EndOf(scn.e6) <= EndOf(scn.e4) /\ Proj(Oks) = A6 \o A4
 \* ... as each lookup completes: an address is yielded at the instant its own lookup ended
 AsEachCompletes ==
-  \A k \in 1..Len(out) : out[k].t = "ok" /\ out[k].fam \in {"a", "aaaa"} =>
+  scn.api = "all" => \A k \in 1..Len(out) : out[k].t = "ok" /\ out[k].fam \in {"a", "aaaa"} =>
      out[k].at = (IF out[k].fam = "a" THEN EndOf(scn.e4) ELSE EndOf(scn.e6))
 \* a combined error only if both lookups failed (carrying both errors); then it is the only item
 CombinedErrorIffBothFail ==
@@ -122,8 +154,18 @@ CombinedErrorIffBothFail ==
            out[k].e4 = OutOf(scn.e4) /\ out[k].e6 = OutOf(scn.e6) /\ k = 1 /\ Len(out) = 2
 \* a no-response error only if nothing was yielded otherwise
 NoResponseIffNothing ==
-  Ended /\ scn.host = "domain" =>
+  Ended /\ scn.host = "domain" /\ scn.api # "join" =>
      ((\E k \in 1..Len(out) : out[k].t = "no_response") <=> (~BothFail /\ Len(A4) + Len(A6) = 0))
+\* resolve_host: one address, of the preferred family whenever that family has one
+PreferredFamily ==
+  Ended /\ scn.host = "domain" /\ scn.api \in {"one4", "one6"} /\ Len(A4) + Len(A6) > 0 =>
+     /\ Len(Oks) = 1 /\ Oks[1].j = 1
+     /\ Oks[1].fam = (IF scn.api = "one4" THEN (IF A4 # <<>> THEN "a" ELSE "aaaa") ELSE (IF A6 # <<>> THEN "aaaa" ELSE "a"))
+\* lookup_ipv4_ipv6: everything both lookups returned, IPv4 first; it waits for both
+JoinReturnsAll ==
+  Ended /\ scn.host = "domain" /\ scn.api = "join" /\ ~BothFail => Proj(Oks) = A4 \o A6
+JoinWaitsForBoth ==
+  Ended /\ scn.host = "domain" /\ scn.api # "all" => \A k \in 1..Len(out) : out[k].at = Max(EndOf(scn.e4), EndOf(scn.e6))
 \* IP-literal hosts are yielded directly, a URL without host is an error; nothing is looked up
 Literals ==
   Ended /\ scn.host # "domain" =>
